@@ -184,7 +184,7 @@ func c05Run(ctx *core.Ctx) {
 			}
 		}
 		// refused BDATs with bait payloads
-		for _, refuse := range []string{"nomail", "norcpt", "badlast", "threeargs", "overlimit"} {
+		for _, refuse := range []string{"nomail", "norcpt", "badlast", "threeargs", "overlimit", "nogreeting"} {
 			for _, mode := range modes {
 				for _, seg := range segs {
 					for _, pay := range [][]byte{
@@ -306,6 +306,10 @@ func c05Exec(ctx *core.Ctx, c c05Case) {
 	var pre string
 	nPre := 0
 	switch c.Refuse {
+	case "nogreeting":
+		// BDAT is the very first command of the connection: refused, and its chunk is still a chunk
+		pre = ""
+		nPre = 1
 	case "nomail":
 		pre = c.Mode.hello() + "\r\n"
 		nPre = 2
@@ -321,7 +325,9 @@ func c05Exec(ctx *core.Ctx, c c05Case) {
 			nPre = 5
 		}
 	}
-	p.SendStr(pre)
+	if pre != "" {
+		p.SendStr(pre)
+	}
 	head, err := expect(p, nPre)
 	finish := func() bool { p.Close(); return rig.Finish() }
 	if err != nil {
